@@ -3,6 +3,8 @@
 set -eu
 ROOT="$(cd "$(dirname "${BASH_SOURCE[0]}")" && pwd)"
 export CARGO_NET_OFFLINE=true
+mkdir -p "$ROOT/target"
+gcc -shared -fPIC -O2 -o "$ROOT/target/fsshim.so" "$ROOT/harness/fsshim/fsshim.c" -ldl -lpthread
 cd "$ROOT/harness"
 cargo build --offline
 echo "setup ok"
